@@ -50,13 +50,13 @@ func init() {
 	reg(&Spec{
 		ID: "C02", Pkgs: []string{"gateway", "util", "client"}, LoopBound: 400,
 		Quick: func() []Inst {
-			return []Inst{inst("gateway", "VH_C02_deliver", 1, 1), inst("gateway", "VH_C02_deliver", 2, 1), inst("gateway", "VH_C02_deliver", 3, 1), inst("gateway", "VH_C02_deliver", 3, 2)}
+			return []Inst{inst("gateway", "VH_C02_deliver", 1, 1, 0), inst("gateway", "VH_C02_deliver", 2, 1, 0), inst("gateway", "VH_C02_deliver", 3, 1, 0), inst("gateway", "VH_C02_deliver", 3, 2, 0), inst("gateway", "VH_C02_deliver", 3, 1, 1)}
 		},
 		Thor: func() []Inst {
-			return []Inst{inst("gateway", "VH_C02_deliver", 1, 1), inst("gateway", "VH_C02_deliver", 2, 1), inst("gateway", "VH_C02_deliver", 3, 1), inst("gateway", "VH_C02_deliver", 3, 2), inst("gateway", "VH_C02_deliver", 4, 2), inst("gateway", "VH_C02_deliver", 2, 2)}
+			return []Inst{inst("gateway", "VH_C02_deliver", 1, 1, 0), inst("gateway", "VH_C02_deliver", 2, 1, 0), inst("gateway", "VH_C02_deliver", 3, 1, 0), inst("gateway", "VH_C02_deliver", 3, 2, 0), inst("gateway", "VH_C02_deliver", 4, 2, 0), inst("gateway", "VH_C02_deliver", 2, 2, 0), inst("gateway", "VH_C02_deliver", 3, 1, 1), inst("gateway", "VH_C02_deliver", 3, 2, 1)}
 		},
 		Asserts: []string{"C02.accepted", "C02.one_datagram", "C02.wellformed", "C02.register_only_for_new_names", "C02.register_carries_name", "C02.register_id_fresh", "C02.publish_after_regack", "C02.publish_uses_registered_id", "C02.is_publish", "C02.client_delivers", "C02.client_resolves_broker_name", "C02.same_payload_qos_retain"},
-		Reach:   []string{"C02.registers_first", "C02.direct_publish", "C02.delivered"},
+		Reach:   []string{"C02.registers_first", "C02.direct_publish", "C02.delivered", "C02.unsubscribed_first"},
 		Bounds: map[string]string{
 			"flow":          "broker PUBLISH (topic name of 1..3 symbolic bytes, thorough 1..4; QoS 0..2, retain, message ID, 2 payload bytes symbolic) through the real handleBrokerPublish; a REGISTER is answered by the real client (REGACK) and the gateway's PUBLISH is delivered through the real client to a '#' handler",
 			"state":         "active client; registry of 1..2 entries and predefined 1+1 entries with symbolic IDs/names shared by gateway and client; pre-state invariant: the client knows every gateway registration under the same ID",
